@@ -37,7 +37,7 @@ let run (path : string) =
         bump ("crash:" ^ hook)
       | "sweep" :: hook :: cap :: counter :: off :: batch :: present :: _ ->
         Hashtbl.replace sweep hook (z_of_string cap, z_of_string counter, z_of_string off, z_of_string batch, bool_of_tok present)
-      | "hook" :: name :: cls :: changed :: _ ->
+      | "hook" :: name :: cls :: changed :: at :: _ ->
         incr steps; bump ("hook:" ^ cls);
         if changed = "1" then case_work := true;
         let sw = Hashtbl.find_opt sweep name in
@@ -52,8 +52,12 @@ let run (path : string) =
           let kf = (match sw with
               | Some (_, _, _, _, present) when Hooks.kf_C15_4 present -> "kf_C15_4"
               | Some (cap, counter, off, batch, _) when Sweep.kf_C15_2 cap counter off batch -> "kf_C15_2"
-              | _ -> "none") in
-          predfail ~case:!case ~step:!steps ~pred:"hook_returns" ~kf ~detail:(name ^ "_panicked")
+              | _ ->
+                (* the panic arose inside the per-item function of a unit the table lists as unwrapped *)
+                if at <> "-" && not (Hooks.table_says_wrapped (coq_string at)) && Hooks.kf_C15_1 (coq_string at) then "kf_C15_1"
+                else if at <> "-" && not (Hooks.table_says_wrapped (coq_string at)) && Hooks.kf_C15_3 (coq_string at) then "kf_C15_3"
+                else "none") in
+          predfail ~case:!case ~step:!steps ~pred:"hook_returns" ~kf ~detail:(name ^ "_panicked_in_" ^ at)
         end
       | "probe" :: m :: wraps :: cls :: _ ->
         incr steps;
